@@ -182,14 +182,16 @@ def only(prefix, fails):
 RULEPAIRS = [(t, r) for t in RULES for r in RULES]
 
 
-def _judge(ctx, case, prefix):
+def _judge(ctx, case, prefix, checker=None):
     case = dict(case)
-    case["kind"] = "match"
-    fails, sig = check_match(case)
+    case["kind"] = "match" if checker is None else checker.kind
+    fails, sig = (checker or check_match)(case)
     ctx.call(2)
     ctx.bulk(1)
     for f in only(prefix, fails):
         ctx.fail(f["clause"], case, f.get("detail"), f.get("key"))
+    if sig is None:
+        return
     if sig[0] == "filtered":
         ctx.note("filtered_out_in_checker")
     else:
@@ -283,6 +285,91 @@ def make_value_body(grids, alphas, prefix):
     return body
 
 
+
+
+def long_case(c):
+    """decode a long-interval case: `counts` samples per interval (fixed point to fixed point), first fixed point at sample
+    `lead`, `tail` samples after the last one; the grid kind decides the spacing INSIDE the intervals"""
+    counts, lead, tail, gk = c["counts"], c["lead"], c["tail"], c["grid"]
+    n = lead + sum(counts) + 1 + tail
+    if gk == "twin":
+        # every interval has the same width and the same number of samples but its own layout
+        raise ValueError("twin grids are built by twin_case")
+    x = A.long_grid(n, gk)
+    y = A.long_values(n, c.get("y", "saw"))
+    pos = [lead]
+    for k in counts:
+        pos.append(pos[-1] + k)
+    off = c.get("ref_offset", 0.0)
+    xr = [x[i] + off * (x[min(i + 1, n - 1)] - x[i]) for i in pos]
+    yr = [float((3 * i) % 5 - 1) for i in range(len(pos))]
+    return {"x": x, "y": y, "xr": xr, "yr": yr, "mode": c["mode"], "strategy": c.get("strategy"),
+            "fixed": ([x[i] for i in pos] if c["mode"] == "values" else pos if c["mode"] == "indices" else None),
+            "tr": c["tr"], "rr": c["rr"], "alpha": c["alpha"], "kind": "match"}
+
+
+@kind("match-long")
+def check_match_long(case):
+    from mc.harness import shrink
+    fails, sig = check_match(long_case(case))
+    if sig and sig[0] == "filtered":
+        return fails, sig
+    return shrink(fails, long=True), (None if sig is None else ("long", tuple(case["counts"]), case["lead"], case["grid"], case["mode"], case.get("strategy"), sig[-1]))
+
+
+TWIN_LAYOUTS = {3: [(0, 1, 4), (0, 2, 4), (0, 3, 4)], 4: [(0, 1, 2, 4), (0, 1, 3, 4), (0, 2, 3, 4)], 5: [(0, 1, 2, 3, 4)],
+                6: [(0, 1, 2, 3, 5, 8), (0, 1, 4, 6, 7, 8), (0, 3, 4, 5, 6, 8)]}
+
+
+@kind("match-twin")
+def check_match_twin(case):
+    """intervals of equal width and equal sample count whose samples sit at different relative positions"""
+    lay = [tuple(l) for l in case["layouts"]]
+    w = lay[0][-1]
+    x = [0.0]
+    for j, l in enumerate(lay):
+        x += [float(j * w + v) for v in l[1:]]
+    pos = [0]
+    for l in lay:
+        pos.append(pos[-1] + len(l) - 1)
+    c = {"x": x, "y": [float((3 * i) % 5 - 2) for i in range(len(x))], "xr": [x[i] for i in pos], "yr": [float((2 * i) % 3 + 1) for i in range(len(pos))],
+         "mode": case["mode"], "strategy": "closest", "fixed": ([x[i] for i in pos] if case["mode"] == "values" else pos if case["mode"] == "indices" else None),
+         "tr": case["tr"], "rr": case["rr"], "alpha": case["alpha"], "kind": "match"}
+    fails, sig = check_match(c)
+    for f in fails:
+        f["key"] = dict(f.get("key") or {}, twin=True)
+    return fails, sig
+
+
+def make_long_body(prefix, quick):
+    """(a) long intervals: the number of samples per interval runs through the size alphabet (every count up to 40,
+    2^k+1, the neighbourhood of every integer constant in the code), the first fixed point sits at sample 0 / 1 / 5, the
+    reference on the grid or a quarter step off it; (b) twin intervals: equal width, equal count, different layout"""
+    counts_alphabet = [v for v in A.sizes(40 if quick else 72, 1100 if quick else 9000, minimum=2)]
+
+    def body(ctx):
+        fam = ctx.choose(["long", "twin"], "family")
+        tr, rr = ctx.choose(RULEPAIRS, "rules")
+        al = ctx.choose([1, 2, 0.5], "alpha")
+        if fam == "twin":
+            for cnt, lays in TWIN_LAYOUTS.items():
+                for l1 in lays:
+                    for l2 in lays:
+                        for mode in ("search", "indices"):
+                            _judge(ctx, prefix=prefix, case={"layouts": [list(l1), list(l2)], "mode": mode, "tr": tr, "rr": rr, "alpha": al},
+                                   checker=check_match_twin)
+            return
+        gk = ctx.choose(["uniform", "gaps"], "grid")
+        lead = ctx.choose([0, 1, 5], "lead")
+        for cnt in counts_alphabet:
+            for (mode, strat, off) in (("search", "closest", 0.0), ("search", "lower", 0.0), ("search", "higher", 0.0), ("search", "higher", -0.25),
+                                       ("search", "lower", 0.25), ("indices", None, 0.0)):
+                if lead == 0 and off < 0:
+                    continue
+                _judge(ctx, prefix=prefix, case={"counts": [cnt, cnt, max(2, cnt // 2)], "lead": lead, "tail": 2, "grid": gk, "mode": mode,
+                                                 "strategy": strat, "ref_offset": off, "tr": tr, "rr": rr, "alpha": al},
+                       checker=check_match_long)
+    return body, counts_alphabet
 
 
 WEAVER_HIST_OPS = [("recreate", "linfix", 2), ("recreate", "pconst", 3), ("recreate", "expada", 2), ("restore_original",),
